@@ -4,6 +4,6 @@ cd "$(dirname "$0")/.."
 NAMES=${*:-$(ls seeded)}
 for n in $NAMES; do
   prop=$(python3 -c "import json;print(json.load(open('seeded/$n/meta.json'))['property'])")
-  out=$(tools/try_seed_wt.sh $prop re_$n seeded/$n/patch.diff 2>&1)
+  out=$(tools/try_seed_wt.sh $prop re_$n "$(pwd)/seeded/$n/patch.diff" 2>&1)
   echo "$n $prop $(echo "$out" | grep -c 'PATCH DOES NOT APPLY' | sed 's/^1$/NOAPPLY/;s/^0$//') $(echo "$out" | grep '^exit=') $(echo "$out" | grep 'violation lines')"
 done
